@@ -13,6 +13,7 @@ import (
 	"errors"
 	"flag"
 	"fmt"
+	"github.com/tuneinsight/lattigo/v6/circuits/ckks/bootstrapping"
 	"io"
 	"math/rand"
 	"os"
@@ -291,6 +292,26 @@ func (e *env) build() {
 		s.MetaData = *e.ct(1, L, 3+v).MetaData
 		return &s
 	}, func() object { return &multiparty.RefreshShare{} })
+	// the bootstrapping key bundle: optional keys in every combination that occurs (ring switching, ring swap,
+	// encapsulation), each key distinct so that an exchange of two fields is visible
+	e.add("bootstrapping.EvaluationKeys", 4, func(v int) object {
+		kg := e.kgen
+		mk := func(a, b *rlwe.SecretKey) *rlwe.EvaluationKey { return kg.GenEvaluationKeyNew(a, b) }
+		k := &bootstrapping.EvaluationKeys{MemEvaluationKeySet: rlwe.NewMemEvaluationKeySet(kg.GenRelinearizationKeyNew(e.sk), kg.GenGaloisKeyNew(p.GaloisElement(1), e.sk))}
+		switch v {
+		case 0:
+			k.EvkRealToCmplx, k.EvkCmplxToReal = mk(e.sk, e.sk2), mk(e.sk2, e.sk)
+		case 1:
+			k.EvkN1ToN2, k.EvkN2ToN1 = mk(e.sk, e.sk2), mk(e.sk2, e.sk)
+		case 2:
+			k.EvkDenseToSparse, k.EvkSparseToDense = mk(e.sk, e.sk2), mk(e.sk2, e.sk)
+		case 3:
+			k.EvkN1ToN2, k.EvkN2ToN1 = mk(e.sk, e.sk2), mk(e.sk2, e.sk)
+			k.EvkRealToCmplx, k.EvkCmplxToReal = mk(e.sk, e.sk), mk(e.sk2, e.sk2)
+			k.EvkDenseToSparse, k.EvkSparseToDense = mk(e.sk2, e.sk), mk(e.sk, e.sk2)
+		}
+		return k
+	}, func() object { return &bootstrapping.EvaluationKeys{} })
 	e.add("multiparty.ShamirSecretShare", 2, func(v int) object {
 		thr := multiparty.NewThresholdizer(p)
 		pol, err := thr.GenShamirPolynomial(2, []*rlwe.SecretKey{e.sk, e.sk2}[v])
@@ -575,7 +596,15 @@ func (d *driver) scenario(steps []scenStep) {
 				// one bufio.Reader shared by consecutive rf_bufio reads
 				if br == nil || brChunk != st.Chunk {
 					under = bytes.NewReader(data[pos:])
-					br = bufio.NewReader(plainReader{chunked(under, st.Chunk, d.rng)})
+					// "buf17" / "buf100": a buffered reader whose size is not a multiple of the element sizes
+					switch st.Chunk {
+					case "buf17":
+						br = bufio.NewReaderSize(plainReader{under}, 17)
+					case "buf100":
+						br = bufio.NewReaderSize(plainReader{under}, 100)
+					default:
+						br = bufio.NewReader(plainReader{chunked(under, st.Chunk, d.rng)})
+					}
 					brChunk = st.Chunk
 				}
 				before := under.Len() + br.Buffered()
